@@ -456,8 +456,21 @@ def evaluate(prob, row, flags=(), solver="twobody", want_posterior=False, full_t
     return out
 
 
-def posterior_ratio(ev, a_code, A_code):
-    """max over entries of |code - closed form| / tolerance for the conditional mean and covariance."""
+def corr_cond(A):
+    """condition number of the correlation matrix belonging to a covariance matrix"""
+    A = np.asarray(A, dtype=float)
+    d = np.sqrt(np.abs(np.diag(A)))
+    d = np.where(d > 0, d, 1.0)
+    try:
+        return float(np.linalg.cond(A / np.outer(d, d)))
+    except np.linalg.LinAlgError:
+        return float("inf")
+
+
+def posterior_ratio(ev, a_code, A_code, cond_floor=0.0):
+    """max over entries of |code - closed form| / tolerance for the conditional mean and covariance.
+    cond_floor: a lower bound for the condition number entering the tolerance (used when the reference itself is a
+    computed covariance whose conditioning differs from the closed form's)."""
     if ev.get("singular"):
         return 0.0
     a, A = ev["a"], ev["A"]
@@ -466,7 +479,7 @@ def posterior_ratio(ev, a_code, A_code):
     dA = np.sqrt(np.abs(np.diag(A)))
     # floor 1e-9 (in units of the posterior standard deviations): LAPACK inverts the badly scaled precision
     # matrix with errors that are tiny norm-wise but up to ~1e-11 relative to sqrt(A_ii A_jj)
-    c = TOL_C * EPS * max(condA, 1.0) + 1e-9
+    c = TOL_C * EPS * max(condA, cond_floor, 1.0) + 1e-9
     scaleA = np.outer(dA, dA)
     tolA = c * scaleA + 1e-300
     free = ev["Lam"] > 0
